@@ -316,7 +316,7 @@ class MatchInstances(_Metric):
     cases = ("1-0-1", "1-1-1", "1-2-1", "2-1-1", "2-2-1", "1-1-2", "2-1-2", "1=1-2", "2=2-1", "2=2-2")
     rand_ranges = {"stddev": (0.02, 0.2), "scale": (1.0, 50.0)}
     bounded = ("match_instances: 1..2 ground-truth and 0..2 predicted instances per frame, 1..2 nodes; coordinates, NaN patterns, detection scores, stddev and scale symbolic",)
-    not_decided = ("find_frame_pairs / Evaluator.__init__ over sleap_io.Labels (frame pairing)", "distance_metrics percentiles (np.percentile) and np.nanmean",
+    not_decided = ("find_frame_pairs / Evaluator.__init__ over sleap_io.Labels (frame pairing)", "voc_metrics(match_score_by='pck')",
                    "OKS normalised by the bounding-box area (scale=None) inside match_instances: the scalar-scale form is used")
 
     def inputs(self, c, case):
@@ -458,3 +458,153 @@ class DeletingAPrediction(MatchInstances):
         if not c.symbolic:
             cl.append(("FULL/deleting-a-prediction-never-increases-recall", concl))
         return cl
+
+
+# ------------------------------------------------- compute_dists / distance / visibility
+def _mk_pairs(c, P, N, perfect=False):
+    gts = [c.tensor("gt%d" % p, [N, 2], FLOAT, nan_ok=True, kind="numpy") for p in range(P)]
+    prs = gts if perfect else [c.tensor("pr%d" % p, [N, 2], FLOAT, nan_ok=True, kind="numpy") for p in range(P)]
+    return gts, prs
+
+
+def _missing(rd, n):
+    return V.b_or(V.f_isnan(rd([n, 0])), V.f_isnan(rd([n, 1])))
+
+
+@contract
+class ComputeDists(_Metric):
+    target = EV + "compute_dists"
+    props = ("C16",)
+    cases = ("1x1", "2x2", "1x2=", "2x2=")
+    bounded = ("compute_dists: 1..2 matched pairs x 1..2 nodes ('=': predictions identical to the ground truth)",)
+
+    def inputs(self, c, case):
+        perfect = case.endswith("=")
+        P, N = [int(x) for x in case.rstrip("=").split("x")]
+        gts, prs = _mk_pairs(c, P, N, perfect)
+        return dict(gts=gts, prs=prs, perfect=perfect)
+
+    def _pairs(self, gts, prs):
+        return [(GMatch(GInst(g), frame_idx=10 + k, video_path="video%d" % k), GMatch(GInst(p)), 1.0) for k, (g, p) in enumerate(zip(gts, prs))]
+
+    def run(self, interp, a):
+        return interp.call(interp.resolve_dotted(EV + "compute_dists"), [self._pairs(a["gts"], a["prs"])], {})
+
+    def real_call(self, ra):
+        from sleap_nn.evaluation import compute_dists
+        from pyvc.concrete import to_real
+
+        return compute_dists([(to_real(g), to_real(p), 1.0) for g, p, _ in self._pairs(ra["gts"], ra["prs"])])
+
+    def ensures(self, c, result, gts, prs, perfect):
+        d = result.get("dists") if isinstance(result, dict) else None
+        P, N = len(gts), gts[0].shape[0]
+        if not (isinstance(d, STensor) and list(d.shape) == [P, N]):
+            return [("PL/dists-is-(pairs,nodes)", False)]
+        dr = d.reader()
+        cl = [("PL/frame-indices-and-video-paths-of-the-ground-truth-instances-in-order", list(result.get("frame_idxs")) == [10 + k for k in range(P)] and list(result.get("video_paths")) == ["video%d" % k for k in range(P)])]
+        rows = []
+        for p in range(P):
+            g, r = gts[p].reader(), prs[p].reader()
+            for n in range(N):
+                miss = V.b_or(_missing(g, n), _missing(r, n))
+                dx, dy = V.f_sub(r([n, 0]), g([n, 0])), V.f_sub(r([n, 1]), g([n, 1]))
+                sq = V.f_add(V.f_mul(dx, dx), V.f_mul(dy, dy))
+                v = dr([p, n])
+                rows.append(V.b_and(V.b_iff(V.f_isnan(v), miss), V.b_implies(V.b_not(miss), V.b_and(V.f_le(0.0, v), V.f_eq(V.f_mul(v, v), sq)))))
+                if perfect:
+                    rows.append(V.b_implies(V.b_not(_missing(g, n)), V.f_eq(v, 0.0)))
+        cl.append(("PL/distance-is-the-Euclidean-distance-NaN-iff-a-keypoint-is-missing%s" % ("-zero-for-identical-predictions" if perfect else ""), V.b_and(*rows)))
+        return cl
+
+
+@contract
+class DistanceMetrics(_Metric):
+    target = EV + "Evaluator.distance_metrics"
+    props = ("C16",)
+    cases = ("1x1", "1x2", "2x2")
+    bounded = ("distance_metrics: up to 2x2 pair x node distances (NaN = missing)",)
+
+    def inputs(self, c, case):
+        P, N = [int(x) for x in case.split("x")]
+        return dict(dists=c.tensor("dists", [P, N], FLOAT, nan_ok=True, kind="numpy", lo=0.0))
+
+    def run(self, interp, a):
+        cv, obj = self.evaluator(interp, dists_dict={"dists": a["dists"], "frame_idxs": [], "video_paths": []})
+        m, _ = cv.lookup("distance_metrics")
+        return interp.call(m, [obj], {})
+
+    def real_call(self, ra):
+        import numpy as np
+
+        return self.real_evaluator(dists_dict={"dists": np.asarray(ra["dists"], dtype="float64"), "frame_idxs": [], "video_paths": []}).distance_metrics()
+
+    def ensures(self, c, result, dists):
+        if not isinstance(result, dict):
+            return [("PL/returns-a-dict", False)]
+        P, N = dists.shape
+        dr = dists.reader()
+        cells = [dr([p, n]) for p in range(P) for n in range(N)]
+        anyv = V.b_or(*[V.b_not(V.f_isnan(x)) for x in cells])
+        allzero = V.b_and(*[V.b_or(V.f_isnan(x), V.f_eq(x, 0.0)) for x in cells])
+        sc = lambda k: (result[k].at([]) if isinstance(result.get(k), STensor) else result.get(k))
+        cl = []
+        for k in ("avg", "p50", "p75", "p90", "p95", "p99"):
+            v = sc(k)
+            lo = V.b_and(*[V.b_or(V.f_isnan(x), V.f_le(0.0, v)) for x in cells])
+            hi = V.b_or(*[V.b_and(V.b_not(V.f_isnan(x)), V.f_le(v, x)) for x in cells])
+            cl.append(("PL/%s-lies-between-0-and-the-largest-distance-(NaN-when-nothing-is-visible)" % k,
+                       V.b_and(V.b_implies(anyv, V.b_and(V.b_not(V.f_isnan(v)), V.f_le(0.0, v), hi)), V.b_implies(V.b_not(anyv), V.f_isnan(v)))))
+            cl.append(("PL/%s-is-zero-for-perfect-predictions" % k, V.b_implies(V.b_and(anyv, allzero), V.f_eq(v, 0.0))))
+        return cl
+
+
+@contract
+class VisibilityMetrics(_Metric):
+    target = EV + "Evaluator.visibility_metrics"
+    props = ("C16",)
+    cases = ("1x1", "1x2", "2x2", "2x2=")
+    bounded = ("visibility_metrics: 1..2 matched pairs x 1..2 nodes",)
+
+    def inputs(self, c, case):
+        perfect = case.endswith("=")
+        P, N = [int(x) for x in case.rstrip("=").split("x")]
+        gts, prs = _mk_pairs(c, P, N, perfect)
+        return dict(gts=gts, prs=prs, perfect=perfect)
+
+    def run(self, interp, a):
+        cv, obj = self.evaluator(interp, positive_pairs=[(GMatch(GInst(g)), GMatch(GInst(p)), 1.0) for g, p in zip(a["gts"], a["prs"])])
+        m, _ = cv.lookup("visibility_metrics")
+        return interp.call(m, [obj], {})
+
+    def real_call(self, ra):
+        from pyvc.concrete import to_real
+
+        return self.real_evaluator(positive_pairs=[(to_real(GMatch(GInst(g))), to_real(GMatch(GInst(p))), 1.0) for g, p in zip(ra["gts"], ra["prs"])]).visibility_metrics()
+
+    def ensures(self, c, result, gts, prs, perfect):
+        if not isinstance(result, dict):
+            return [("PL/returns-a-dict", False)]
+        P, N = len(gts), gts[0].shape[0]
+        g = lambda k: (result[k].at([]) if isinstance(result.get(k), STensor) else result.get(k))
+        cnt = lambda conds: _isum([V.zint(V.zbool(x)) if not isinstance(x, bool) else int(x) for x in conds])
+        mg = [_missing(gts[p].reader(), n) for p in range(P) for n in range(N)]
+        mp = [_missing(prs[p].reader(), n) for p in range(P) for n in range(N)]
+        tp = cnt([V.b_and(V.b_not(a), V.b_not(b)) for a, b in zip(mg, mp)])
+        fn = cnt([V.b_and(V.b_not(a), b) for a, b in zip(mg, mp)])
+        fp = cnt([V.b_and(a, V.b_not(b)) for a, b in zip(mg, mp)])
+        tn = cnt([V.b_and(a, b) for a, b in zip(mg, mp)])
+        cl = [("PL/confusion-counts-are-the-node-visibility-counts", V.b_and(V.i_eq(g("tp"), tp), V.i_eq(g("fp"), fp), V.i_eq(g("tn"), tn), V.i_eq(g("fn"), fn)))]
+        pr_, rc_ = g("precision"), g("recall")
+        cl.append(("PL/precision-and-recall-lie-in-[0,1]-or-are-NaN-when-undefined",
+                   V.b_and(V.b_or(V.f_isnan(pr_), _in01(pr_)), V.b_or(V.f_isnan(rc_), _in01(rc_)), V.b_iff(V.f_isnan(pr_), V.i_eq(V.i_add(tp, fp), 0)), V.b_iff(V.f_isnan(rc_), V.i_eq(V.i_add(tp, fn), 0)))))
+        if perfect:
+            cl.append(("PL/identical-predictions:precision-and-recall-1-when-anything-is-visible", V.b_implies(V.i_lt(0, tp), V.b_and(V.f_eq(pr_, 1.0), V.f_eq(rc_, 1.0)))))
+        return cl
+
+
+def _isum(xs):
+    acc = 0
+    for x in xs:
+        acc = V.i_add(acc, x)
+    return acc
